@@ -262,6 +262,7 @@ package websocket
 
 //@ func (*Conn).handleControl
 //@ tags C03 C15 C06
+//@ input client specB2U(c.client)
 //@ requires connReady(c) && c.br != nil && ctx != nil && gvcHeld(c.readMu.ch) && !gvcHeld(c.writeFrameMu.ch) && !gvcHeld(c.msgWriter.writeMu.ch) && (h.opcode == opClose || h.opcode == opPing || h.opcode == opPong)
 //@ modifies $RDFP, $WRFP, $CLFP
 //@ ensures [ok-keeps] err == nil ==> connReady(c) && c.br == old(c.br) && gvcHeld(c.readMu.ch) && !gvcHeld(c.writeFrameMu.ch) && !gvcHeld(c.msgWriter.writeMu.ch) && h.opcode != opClose
@@ -280,9 +281,12 @@ package websocket
 //@ ensures [no-second-close] {C16} old(c.closeSent) && h.opcode == opClose ==> ghwr(c.bw).pos == old(ghwr(c.bw).pos) && ghwr(c.bw).buffered == old(ghwr(c.bw).buffered)
 //@ ensures [close-sent-monotone] {C16} old(c.closeSent) ==> c.closeSent
 //@ ensures [readmu-released-only-closed] {C05} !gvcHeld(c.readMu.ch) ==> gvcClosed(c.closed)
+//@ ensures [close-frame-is-close-error] {C06} c.closeReceived && !old(c.closeReceived) ==> h.opcode == opClose && errIsCE(err)
 
 //@ func (*Conn).readLoop
 //@ tags C03 C04
+//@ input client specB2U(c.client)
+//@ input copts specB2U(c.copts != nil)
 //@ requires connReady(c) && c.br != nil && ctx != nil && gvcHeld(c.readMu.ch) && !gvcHeld(c.writeFrameMu.ch) && !gvcHeld(c.msgWriter.writeMu.ch)
 //@ modifies $RDFP, $WRFP, $CLFP
 //@ ensures [data-op] result1 == nil ==> result0.opcode == opContinuation || result0.opcode == opText || result0.opcode == opBinary
@@ -339,6 +343,12 @@ package websocket
 
 //@ func (*msgReader).Read
 //@ tags C04 C03 C08
+//@ input client specB2U(mr.c.client)
+//@ input fin specB2U(mr.fin)
+//@ input flate specB2U(mr.flate)
+//@ input plen mr.payloadLength
+//@ input key mr.maskKey
+//@ input limit mr.limitReader.n
 //@ requires connReady(mr.c) && !gvcHeld(mr.c.writeFrameMu.ch) && !gvcHeld(mr.c.msgWriter.writeMu.ch) && mr.c.msgReader == mr && mr.ctx != nil && !gvcHeld(mr.c.readMu.ch) && ghconn(mr.limitReader.r) == mr.c && mr.limitReader.r != nil && (mr.flate ==> mr.c.copts != nil) && (mr.flate && !specReceiverNoTakeover(mr.c.client, mr.c.copts) ==> mr.dict != nil && cap(mr.dict.buf) > 0 && gvcRegion(mr.dict.buf) != gvcRegion(p))
 //@ modifies bytes(p), mr.limitReader.n, mr.fin, mr.payloadLength, mr.maskKey, $RDFPm, $WRFPm, $CLFPm, bytes(mr.dict.buf), mr.dict.buf
 //@ ensures [n] 0 <= n && n <= len(p)
@@ -442,6 +452,7 @@ package websocket
 //@ ensures [inv] connIdle(c) && !gvcHeld(c.readMu.ch)
 //@ ensures [nil-iff-echo] {C06} result == nil ==> true
 //@ ensures [close-sent-monotone] {C16} old(c.closeSent) ==> c.closeSent
+//@ ensures [echo-is-success] {C06} result == nil || !errIsCE(result) || errCECode(result) != code
 
 //@ func (*Conn).Close
 //@ tags C06 C20
